@@ -18,7 +18,9 @@
 EXTENDS Overlap
 
 CONSTANTS Fams,      \* subset of {"overlap", "trim", "map", "swv", "emc"}
-          N1,        \* 1-d extents 1 .. N1
+          Lo1, N1,   \* 1-d extents Lo1 .. N1
+          CfgMode,   \* "full": the whole depth / boundary menu;  "border": the cases of the border stratum (below)
+          Border,    \* > 0: also export, per depth, the border chunkings with extent <= Border
           MaxD,      \* 1-d depths 0 .. MaxD
           Shapes2,   \* set of 2-d shapes
           ZeroN,     \* chunkings with one zero-width block for extents <= ZeroN
@@ -26,7 +28,7 @@ CONSTANTS Fams,      \* subset of {"overlap", "trim", "map", "swv", "emc"}
 
 VARIABLES kase, fin, xpd, out
 
-Shapes1 == {<<e>> : e \in 1..N1}
+Shapes1 == {<<e>> : e \in Lo1..N1}
 
 -----------------------------------------------------------------------------
 (* depth / boundary configurations                                            *)
@@ -41,7 +43,31 @@ AxOpt == {<< <<0, 0>>, "none" >>}
          \cup {<< <<1, 0>>, "none" >>, << <<0, 2>>, "none" >>, << <<1, 2>>, "none" >>}
 Cfg2 == {[depth |-> <<p[1], q[1]>>, bnd |-> <<p[2], q[2]>>] : p \in AxOpt, q \in AxOpt}
 
-Cfg(sh) == IF Len(sh) = 1 THEN Cfg1 ELSE Cfg2
+(* The border stratum.  dask re-chunks an axis whose blocks are shorter than the depth d
+   (ensure_minimum_chunksize merges a short block into its neighbours or borrows from the block
+   before it); what happens depends on how the lengths around the short block compare with d and
+   2d.  For every depth d the harness therefore always runs the chunkings made of two or three
+   blocks with lengths from {d-1, d, d+1, 2d-1, 2d, 1, 0} in every order that contain a block
+   shorter than d (first, in the middle, last), 1-d and along one axis of a 2-d array, under
+   every boundary condition.  The extents this needs exceed the exhaustively chunked ones, so
+   the cases of those longer shapes are enumerated with the symmetric depths (and one
+   asymmetric pair without boundary) only.                                                    *)
+Pieces(d) == {d - 1, d, d + 1, 2 * d - 1, 2 * d, 1, 0}
+BorderSeqs(d, hi) ==
+  {s \in UNION {[1..k -> Pieces(d)] : k \in 2..3} :
+      /\ \E j \in DOMAIN s : s[j] < d
+      /\ Cardinality({j \in DOMAIN s : s[j] = 0}) <= 1
+      /\ SumSeq(s) >= d /\ SumSeq(s) >= 1 /\ SumSeq(s) <= hi}
+CfgB1 == {[depth |-> <<<<s, s>>>>, bnd |-> <<m>>] : s \in 1..MaxD, m \in Modes}
+         \cup {[depth |-> <<<<s, s - 1>>>>, bnd |-> <<"none">>] : s \in 1..MaxD}
+\* 2-d: depth s along the long axis under every boundary; the short axis without or with one cell of the same boundary
+CfgB2(sh) ==
+  LET long == IF sh[1] >= sh[2] THEN 1 ELSE 2 IN
+  {[depth |-> [a \in 1..2 |-> IF a = long THEN <<s, s>> ELSE <<o, o>>],
+    bnd   |-> [a \in 1..2 |-> IF a = long \/ o = 1 THEN m ELSE "none"]] : s \in 1..2, m \in Modes, o \in 0..1}
+
+Cfg(sh) == IF CfgMode = "border" THEN (IF Len(sh) = 1 THEN CfgB1 ELSE CfgB2(sh))
+           ELSE IF Len(sh) = 1 THEN Cfg1 ELSE Cfg2
 
 \* stencil radii: as wide as the depth, one narrower in front; 2-d: at most one cell per side
 Rads(sh, depth) ==
@@ -94,16 +120,21 @@ Pick ==
      /\ \E sh \in AllShapes : \E g \in Cfg(sh) :
            kase = [fam |-> "trim", shape |-> sh, depth |-> g.depth, bnd |-> g.bnd]
   \/ /\ "map" \in Fams
-     /\ \E sh \in AllShapes : \E g \in Cfg(sh) \cup (IF Len(sh) = 1 THEN Cfg1Asym ELSE {}) : \E rd \in Rads(sh, g.depth) :
+     /\ \E sh \in AllShapes : \E g \in Cfg(sh) \cup (IF Len(sh) = 1 /\ CfgMode = "full" THEN Cfg1Asym ELSE {}) :
+        \E rd \in Rads(sh, g.depth) :
            kase = [fam |-> "map", shape |-> sh, depth |-> g.depth, bnd |-> g.bnd, rad |-> rd]
   \/ /\ "swv" \in Fams
      /\ \E sh \in AllShapes : kase \in SwvCases(sh)
   \/ /\ "emc" \in Fams
      /\ \E z \in 0..(MaxD + 2) : \E ch \in EmcChunks : kase = [fam |-> "emc", size |-> z, chunks |-> ch]
-  \/ \E sh \in AllShapes : kase = [fam |-> "chunkings", shape |-> sh]
+  \/ /\ CfgMode = "full"
+     /\ \E sh \in AllShapes : kase = [fam |-> "chunkings", shape |-> sh]
+  \/ /\ Border > 0
+     /\ \E dd \in 1..MaxD : kase = [fam |-> "border", d |-> dd]
 
 Expected(c) ==
   CASE c.fam = "chunkings" -> [err |-> FALSE, shape |-> c.shape, cells |-> <<>>, all |-> SetToSeq(ChunkingsOf(c.shape))]
+    [] c.fam = "border"    -> [err |-> FALSE, shape |-> <<>>, cells |-> <<>>, all |-> SetToSeq(BorderSeqs(c.d, Border))]
     [] c.fam = "emc"       -> EnsureMinAlg(c.size, c.chunks)
     [] OTHER               -> Res(c)
 
@@ -138,7 +169,7 @@ OverlapCellsKnown == Good("overlap") =>
 \* "map_overlap gives the same result as padding the whole array, applying the function and
 \* trimming": applying the stencil block by block to the overlapped blocks and trimming them gives,
 \* for every admissible chunking, the reference result
-BlocksEqualWhole == Good("map") =>
+BlocksEqualWhole == (Good("map") /\ CfgMode = "full") =>
                       LET P == PadWhole(Src, kase.depth, kase.bnd, CVal(kase.shape)) IN
                       \A ch \in EffChunkings(kase.shape, kase.depth) :
                          MapOverlapBlocksOn(P, ch, kase.depth, kase.bnd, kase.rad).cells = xpd.cells
@@ -164,6 +195,15 @@ SwvFirstWindow == Good("swv") =>
 EmcContract == IsFam("emc") => EnsureMinOK(kase.size, kase.chunks, xpd)
 
 ChunkingsValid == IsFam("chunkings") => \A j \in DOMAIN xpd.all : ValidChunks(kase.shape, xpd.all[j])
+
+\* the border stratum contains, for its depth, a short block right after a block only slightly longer than the depth,
+\* in first, middle and last position (when the depth leaves room for a non-empty short block)
+BorderCovers == IsFam("border") =>
+   LET dd == kase.d
+       S  == {xpd.all[j] : j \in DOMAIN xpd.all}
+   IN /\ \A s \in S : (\E j \in DOMAIN s : s[j] < dd) /\ SumSeq(s) <= Border
+      /\ <<dd + 1, dd - 1>> \in S /\ <<dd - 1, dd + 1>> \in S
+      /\ (3 * dd <= Border) => (<<dd, dd + 1, dd - 1>> \in S /\ <<dd + 1, dd - 1, dd>> \in S /\ <<dd - 1, dd + 1, dd>> \in S)
 
 -----------------------------------------------------------------------------
 (* The example of the docstring of dask.array.overlap.overlap fixes what the
